@@ -422,18 +422,136 @@ class VariationalFam(Family):
         return res
 
 
+
+P = gpytorch.priors
+
+
+class ExactGPPriorFam(ExactGPFam):
+    """batched exact GP with priors registered on ONE kind of module (site) - or on all of them: the log-prior of
+    element b's parameter slice, and nothing else, must enter element b of the MLL / leave-one-out pseudo likelihood.
+    Sites: kernel (lengthscale + outputscale priors), constmean (ConstantMean prior), linmean (LinearMean weights and
+    bias), noise (noise model of the likelihood), lik-closure (user prior with a closure, registered on the likelihood
+    itself), model-closure / model-closure-ls (user prior registered on the ExactGP model: on outputscale = no
+    trailing dims / on the lengthscale = trailing dims), all."""
+    SITES = ("kernel", "constmean", "linmean", "noise", "lik-closure", "model-closure", "model-closure-ls", "all")
+    # the module the prior is registered on has no `batch_shape` attribute (upstream GPyTorch)
+    OWNER_WITHOUT_BATCH_SHAPE = ("linmean", "lik-closure", "model-closure", "model-closure-ls", "all")
+
+    class Holder(torch.nn.Module):
+        def __init__(self, bs, site):
+            super().__init__()
+            bs = torch.Size(bs)
+            on = lambda *names: site in names or site == "all"   # noqa: E731
+            if on("linmean"):
+                self.mean_module = gpytorch.means.LinearMean(D, batch_shape=bs)
+                self.mean_module.register_prior("weights_prior", P.NormalPrior(0.0, 1.5), "weights")
+                self.mean_module.register_prior("bias_prior", P.NormalPrior(0.2, 0.8), "bias")
+            else:
+                self.mean_module = gpytorch.means.ConstantMean(
+                    batch_shape=bs, constant_prior=P.NormalPrior(0.3, 1.2) if on("constmean") else None)
+            self.covar_module = K.ScaleKernel(
+                K.RBFKernel(ard_num_dims=D, batch_shape=bs, lengthscale_prior=P.GammaPrior(3.0, 4.0) if on("kernel") else None),
+                batch_shape=bs, outputscale_prior=P.GammaPrior(2.0, 1.5) if on("kernel") else None)
+            self.likelihood = gpytorch.likelihoods.GaussianLikelihood(
+                batch_shape=bs, noise_prior=P.GammaPrior(1.1, 2.0) if on("noise") else None)
+            if on("lik-closure"):
+                self.likelihood.register_prior("noise_std_prior", P.NormalPrior(0.5, 0.25), lambda m: m.noise.sqrt())
+
+    def __init__(self, site):
+        self.site, self.mode = site, "both"
+        self.name = "exactgp-prior:" + site
+
+    def make(self, bs):
+        return self.Holder(bs, self.site)
+
+    def run(self, mod, data):
+        x, y = data["x"], data["y"]
+        model = self.GP(x, y, mod)
+        if self.site in ("model-closure", "all"):
+            model.register_prior("model_os_prior", P.GammaPrior(2.0, 1.0), lambda m: m.covar_module.outputscale)
+        if self.site in ("model-closure-ls", "all"):
+            model.register_prior("model_ls_prior", P.GammaPrior(2.5, 3.0), lambda m: m.covar_module.base_kernel.lengthscale)
+        model.train(); mod.likelihood.train()
+        with torch.no_grad():
+            return each_output(
+                mll=lambda: gpytorch.mlls.ExactMarginalLogLikelihood(mod.likelihood, model)(model(x), y),
+                loo=lambda: gpytorch.mlls.LeaveOneOutPseudoLikelihood(mod.likelihood, model)(model(x), y))
+
+    def input_class(self, name, sp, sd, m):
+        # the exact MLL decides how many leading dims of a prior term are batch dims from the owning module's
+        # `batch_shape`; without one it falls back to the rank of the result: input class of the recorded finding
+        # C08-exact-mll-prior-owner-without-batch-shape
+        # LeaveOneOutPseudoLikelihood reshapes the mean to the targets' shape: class of the recorded finding
+        # C08-loo-param-batch-exceeds-data-batch (Coq: expands_to sp sd = false)
+        cls = "+param-batch-exceeds-data-batch" if name == "loo" and not m["expands"] else ""
+        if self.site in self.OWNER_WITHOUT_BATCH_SHAPE:
+            cls += "+owner-without-batch_shape"
+            if len(sp) < len(m["t"]):
+                cls += "+param-rank-lt-result-rank"
+        return cls
+
+
+class VariationalPriorFam(VariationalFam):
+    """batched variational GP with priors on one kind of module: element b of the ELBO / predictive log likelihood
+    contains the log-prior of element b's parameters only"""
+    SITES = ("kernel", "lik-closure", "model-closure")
+
+    class Model(gpytorch.models.ApproximateGP):
+        def __init__(self, bs, site):
+            bs = torch.Size(bs)
+            vd = gpytorch.variational.CholeskyVariationalDistribution(NI, batch_shape=bs)
+            vs = gpytorch.variational.VariationalStrategy(self, torch.zeros(*bs, NI, D), vd, learn_inducing_locations=True)
+            super().__init__(vs)
+            self.mean_module = gpytorch.means.ConstantMean(
+                batch_shape=bs, constant_prior=P.NormalPrior(0.3, 1.2) if site == "constmean" else None)
+            self.covar_module = K.ScaleKernel(
+                K.RBFKernel(batch_shape=bs, lengthscale_prior=P.GammaPrior(3.0, 4.0) if site == "kernel" else None),
+                batch_shape=bs, outputscale_prior=P.GammaPrior(2.0, 1.5) if site == "kernel" else None)
+            self.likelihood = gpytorch.likelihoods.GaussianLikelihood(
+                batch_shape=bs, noise_prior=P.GammaPrior(1.1, 2.0) if site == "noise" else None)
+            if site == "lik-closure":
+                self.likelihood.register_prior("noise_std_prior", P.NormalPrior(0.5, 0.25), lambda m: m.noise.sqrt())
+            if site == "model-closure":
+                self.register_prior("model_os_prior", P.GammaPrior(2.0, 1.0), lambda m: m.covar_module.outputscale)
+
+        def forward(self, x):
+            return gpytorch.distributions.MultivariateNormal(self.mean_module(x), self.covar_module(x))
+
+    def __init__(self, site):
+        self.site = site
+        self.name = "variational-prior:" + site
+
+    def make(self, bs):
+        return self.Model(bs, self.site)
+
+    def run(self, mod, data):
+        mod.train(); mod.likelihood.train()
+        with torch.no_grad():
+            mod.variational_strategy.variational_params_initialized.fill_(1)
+            out = mod(data["x"])
+            return each_output(
+                elbo=lambda: gpytorch.mlls.VariationalELBO(mod.likelihood, mod, num_data=N)(out, data["y"]),
+                pll=lambda: gpytorch.mlls.PredictiveLogLikelihood(mod.likelihood, mod, num_data=2 * N)(out, data["y"]))
+
+    def input_class(self, name, sp, sd, m):
+        # class of the recorded finding C08-approximate-mll-prior-summed-over-batch: more than one parameter slice
+        return "+param-batch-numel-gt-1" if int(torch.Size(sp).numel()) > 1 else ""
+
+
 def families(tier):
     fams = [KernelFam(k) for k in KERNELS]
     fams += [MeanFam("constant"), MeanFam("linear"), GaussLikFam(), FixedNoiseLikFam(), MultitaskLikFam()]
     fams += [ExactGPFam("scale_rbf"), ExactGPFam("matern25_ard"), ExactGPFam("rbf+linear", mode="train-only"),
              ExactGPFam("scale_matern", mode="test-only")]
     fams += [VariationalFam(True), VariationalFam(False)]
+    fams += [ExactGPPriorFam(site) for site in ExactGPPriorFam.SITES]
+    fams += [VariationalPriorFam(site) for site in VariationalPriorFam.SITES]
     return fams
 
 
 # event rank (number of trailing non-batch dimensions) of every output
 EV = dict(K=2, Kx=2, diag=1, lazy_diag=1, diag_n3=1, lazy_diag_n3=1, m=1, marg_mean=1, marg_cov=2, elp=1, lmarg=1, mll=0, prior_mean=1, prior_cov=2,
-          post_mean=1, post_cov=2, pred_cov=2, train_mean=1, train_cov=2, kl=0, elbo=0, pred_mean=1)
+          post_mean=1, post_cov=2, pred_cov=2, train_mean=1, train_cov=2, kl=0, elbo=0, pred_mean=1, loo=0, pll=0)
 
 
 def run_family(out, fam, sp, sd, m, seed, table):
@@ -505,47 +623,202 @@ def run_family(out, fam, sp, sd, m, seed, table):
 
 # ------------------------------------------------------------------ model lists
 
+class ListGP(gpytorch.models.ExactGP):
+    def __init__(self, x, y, lik, mean, covar):
+        super().__init__(x, y, lik)
+        self.mean_module, self.covar_module = mean, covar
+
+    def forward(self, x):
+        return gpytorch.distributions.MultivariateNormal(self.mean_module(x), self.covar_module(x))
+
+
+LIST_LIKS = ("gaussian", "fixed", "fixed+learned", "hetero")
+
+
+def make_list_member(rng, lik_kind, kname):
+    """one exact GP with its own data size, hyperparameters and likelihood.  hetero: the noise is the posterior mean
+    of a second exact GP evaluated at the inputs that are passed to the likelihood as params"""
+    n = rng.choice([2, 3, 4, 5])
+    x, y = points(rng, (), n), rand(rng, n)
+    if lik_kind == "gaussian":
+        lik = gpytorch.likelihoods.GaussianLikelihood()
+    elif lik_kind in ("fixed", "fixed+learned"):
+        lik = gpytorch.likelihoods.FixedNoiseGaussianLikelihood(0.05 + rand(rng, n).abs(), learn_additional_noise=lik_kind == "fixed+learned")
+    else:
+        nn_ = rng.choice([2, 3])
+        nmodel = ListGP(points(rng, (), nn_), rand(rng, nn_), gpytorch.likelihoods.GaussianLikelihood(),
+                        gpytorch.means.ConstantMean(), K.ScaleKernel(K.RBFKernel()))
+        lik = gpytorch.likelihoods.gaussian_likelihood._GaussianLikelihoodBase(
+            gpytorch.likelihoods.noise_models.HeteroskedasticNoise(nmodel))
+    gp = ListGP(x, y, lik, gpytorch.means.ConstantMean(), KERNELS[kname](torch.Size()))
+    fill_params(gp, rng)
+    return gp, x, y
+
+
+def _same(a, b, tol=1e-12):
+    return a.shape == b.shape and bool(torch.allclose(a, b, rtol=0, atol=tol)) and not bool(torch.isnan(a).any())
+
+
+def _same_mvn(a, b, tol=1e-12):
+    return type(a) is type(b) and _same(a.mean, b.mean, tol) and _same(a.covariance_matrix, b.covariance_matrix, tol)
+
+
 def check_model_list(out, seed, reps):
+    """EVERY public call form of IndependentModelList / LikelihoodList / SumMarginalLogLikelihood, 2 and 3 members with
+    different data sizes and likelihood kinds, compared with the members' own outputs (mean of them for the sum MLL)"""
     for k in range(reps):
         rng = random.Random(seed * 31 + k)
-        nm = rng.choice([2, 3])
-        fam = ExactGPFam(rng.choice(["scale_rbf", "rbf+linear", "matern15"]))
-        members, xs, ys, tests = [], [], [], []
-        for _ in range(nm):
-            h = fam.make(())
-            fill_params(h, rng)
-            n = rng.choice([2, 3, 4])
-            x, y = points(rng, (), n), rand(rng, n)
-            members.append(ExactGPFam.GP(x, y, h)); xs.append(x); ys.append(y); tests.append(points(rng, (), M))
+        nm = 2 + k % 2
+        lik_kind = LIST_LIKS[(k // 2) % len(LIST_LIKS)]
+        kname = rng.choice(["scale_rbf", "rbf+linear", "matern15"])
+        made = [make_list_member(rng, lik_kind, kname) for _ in range(nm)]
+        members, xs, ys = [g for g, _, _ in made], [x for _, x, _ in made], [y for _, _, y in made]
+        tests = [points(rng, (), rng.choice([1, 2, 3])) for _ in range(nm)]
+        noises = [0.05 + rand(rng, y.shape[0]).abs() for y in ys]             # per-model noise= kwarg (train)
+        tnoises = [0.05 + rand(rng, t.shape[0]).abs() for t in tests]           # per-model noise= kwarg (test)
+        samples = [rand(rng, 2, y.shape[0]) for y in ys]
         ml = gpytorch.models.IndependentModelList(*members)
-        case = dict(kind="model-list", members=nm, seed=seed, k=k)
-        out.case(case, True, label="model-list")
+        case = dict(kind="model-list", members=nm, lik=lik_kind, kernel=kname, sizes=[int(y.shape[0]) for y in ys], seed=seed, k=k)
+        out.case(case, True, label="model-list:" + lik_kind)
+
+        def form(key, what, thunk):
+            """thunk returns a list of (got, want) tensor / MVN pairs; an exception in a call form is a failure of
+            that form"""
+            try:
+                pairs = thunk()
+            except Exception as e:
+                out.fail("model-list:%s:%s:%s" % (key, lik_kind, type(e).__name__), "%s raised %r" % (what, e), case)
+                return
+            for i, (g, w) in enumerate(pairs):
+                ok = _same_mvn(g, w) if isinstance(w, gpytorch.distributions.MultivariateNormal) else _same(g, w)
+                if not ok:
+                    out.fail("model-list:%s:%s" % (key, lik_kind), "%s differs from the members' own output (position %d)" % (what, i),
+                             case, impl=getattr(g, "mean", g), model=getattr(w, "mean", w))
+                    return
+
+        # params handed to the likelihoods: needed by hetero, ignored by the others
+        need = lik_kind == "hetero"
         ml.train()
         with torch.no_grad():
-            smll = gpytorch.mlls.SumMarginalLogLikelihood(ml.likelihood, ml)
-            outs = ml(*ml.train_inputs)
-            val = smll(outs, ml.train_targets)
-            indiv = [gpytorch.mlls.ExactMarginalLogLikelihood(mm.likelihood, mm)(mm(x), y)
-                     for mm, x, y in zip(members, xs, ys)]
-            for o, mm, x in zip(outs, members, xs):
-                ref = mm(x)
-                if not (torch.equal(o.mean, ref.mean) and torch.equal(o.covariance_matrix, ref.covariance_matrix)):
-                    out.fail("model-list:train-output", "IndependentModelList output differs from its member's", case)
-            mean = sum(v.item() for v in indiv) / nm
-            if not C.close(val.item(), mean, 1e-12, 1e-12):
-                out.fail("sum-mll:mean", "SumMarginalLogLikelihood is not the mean of the members' MLLs", case,
-                         impl=val.item(), model=mean)
+            form("call:train", "IndependentModelList(*train_inputs)", lambda: list(zip(ml(*ml.train_inputs), [m(x) for m, x in zip(members, xs)])))
+            form("call:train:tensor-args", "IndependentModelList(x_0, x_1, ..) with bare tensors", lambda: list(zip(ml(*xs), [m(x) for m, x in zip(members, xs)])))
+            form("forward", "IndependentModelList.forward", lambda: list(zip(ml.forward(*xs), [m.forward(x) for m, x in zip(members, xs)])))
+            form("forward_i", "IndependentModelList.forward_i", lambda: [(ml.forward_i(i, xs[i]), members[i].forward(xs[i])) for i in range(nm)])
+            outs = [m(x) for m, x in zip(members, xs)]
+            mean_of = lambda vals: sum(vals) / nm       # noqa: E731
+            for cname, cls in (("exact", gpytorch.mlls.ExactMarginalLogLikelihood), ("loo", gpytorch.mlls.LeaveOneOutPseudoLikelihood)):
+                smll = gpytorch.mlls.SumMarginalLogLikelihood(ml.likelihood, ml, mll_cls=cls)
+                if not need:
+                    form("sum-mll:%s:no-params" % cname, "SumMarginalLogLikelihood(outputs, targets)",
+                         lambda: [(smll(ml(*ml.train_inputs), ml.train_targets),
+                                   mean_of([cls(m.likelihood, m)(o, y) for m, o, y in zip(members, outs, ys)]))])
+                form("sum-mll:%s:per-model-params" % cname, "SumMarginalLogLikelihood(outputs, targets, *train_inputs)",
+                     lambda: [(smll(ml(*ml.train_inputs), ml.train_targets, *ml.train_inputs),
+                               mean_of([cls(m.likelihood, m)(o, y, x) for m, o, y, x in zip(members, outs, ys, xs)]))])
+            if not need:
+                form("likelihood:marginal", "LikelihoodList(*outputs)", lambda: list(zip(ml.likelihood(*outs), [m.likelihood(o) for m, o in zip(members, outs)])))
+                form("likelihood_i", "IndependentModelList.likelihood_i", lambda: [(ml.likelihood_i(i, outs[i]), members[i].likelihood(outs[i])) for i in range(nm)])
+                form("likelihood:elp", "LikelihoodList.expected_log_prob(*[(y, f)])",
+                     lambda: list(zip(ml.likelihood.expected_log_prob(*[(y, o) for y, o in zip(ys, outs)]),
+                                      [m.likelihood.expected_log_prob(y, o) for m, y, o in zip(members, ys, outs)])))
+                form("likelihood:forward", "LikelihoodList.forward(*samples)",
+                     lambda: [(g.scale, w.scale) for g, w in zip(ml.likelihood.forward(*samples),
+                                                                 [m.likelihood.forward(f) for m, f in zip(members, samples)])])
+            form("likelihood:marginal:params", "LikelihoodList(*[(output, x)])",
+                 lambda: list(zip(ml.likelihood(*[(o, x) for o, x in zip(outs, xs)]), [m.likelihood(o, x) for m, o, x in zip(members, outs, xs)])))
+            form("likelihood_i:params", "IndependentModelList.likelihood_i(i, output, x)",
+                 lambda: [(ml.likelihood_i(i, outs[i], xs[i]), members[i].likelihood(outs[i], xs[i])) for i in range(nm)])
+            form("likelihood:elp:params", "LikelihoodList.expected_log_prob(*[(y, f, x)])",
+                 lambda: list(zip(ml.likelihood.expected_log_prob(*[(y, o, x) for y, o, x in zip(ys, outs, xs)]),
+                                  [m.likelihood.expected_log_prob(y, o, x) for m, y, o, x in zip(members, ys, outs, xs)])))
+            form("likelihood:forward:params", "LikelihoodList.forward(*[(samples, x)])",
+                 lambda: [(g.scale, w.scale) for g, w in zip(ml.likelihood.forward(*[(f, x) for f, x in zip(samples, xs)]),
+                                                             [m.likelihood.forward(f, x) for m, f, x in zip(members, samples, xs)])])
+            form("likelihood:marginal:noise-kwarg", "LikelihoodList(*outputs, noise=[..])",
+                 lambda: list(zip(ml.likelihood(*outs, noise=noises), [m.likelihood(o, noise=nz) for m, o, nz in zip(members, outs, noises)])))
+            form("likelihood:forward:noise-kwarg", "LikelihoodList.forward(*samples, noise=[..])",
+                 lambda: [(g.scale, w.scale) for g, w in zip(ml.likelihood.forward(*samples, noise=noises),
+                                                             [m.likelihood.forward(f, noise=nz) for m, f, nz in zip(members, samples, noises)])])
         ml.eval()
         with torch.no_grad():
-            outs = ml(*tests)
-            preds = ml.likelihood(*outs)
-            for o, p, mm, xt in zip(outs, preds, members, tests):
-                ref = mm(xt)
-                rp = mm.likelihood(ref)
-                if not (torch.allclose(o.mean, ref.mean, rtol=0, atol=1e-12)
-                        and torch.allclose(o.covariance_matrix, ref.covariance_matrix, rtol=0, atol=1e-12)
-                        and torch.allclose(p.covariance_matrix, rp.covariance_matrix, rtol=0, atol=1e-12)):
-                    out.fail("model-list:posterior", "IndependentModelList posterior differs from its member's", case)
+            refs = [m(xt) for m, xt in zip(members, tests)]
+            form("call:eval", "IndependentModelList posterior", lambda: list(zip(ml(*tests), refs)))
+            form("likelihood:predictive:params", "LikelihoodList(*[(posterior, x*)])",
+                 lambda: list(zip(ml.likelihood(*[(o, xt) for o, xt in zip(ml(*tests), tests)]), [m.likelihood(r, xt) for m, r, xt in zip(members, refs, tests)])))
+            form("likelihood:predictive:noise-kwarg", "LikelihoodList(*posteriors, noise=[..])",
+                 lambda: list(zip(ml.likelihood(*ml(*tests), noise=tnoises), [m.likelihood(r, noise=nz) for m, r, nz in zip(members, refs, tnoises)])))
+            if lik_kind in ("gaussian", "fixed+learned"):
+                form("likelihood:predictive", "LikelihoodList(*posteriors)", lambda: list(zip(ml.likelihood(*ml(*tests)), [m.likelihood(r) for m, r in zip(members, refs)])))
+            # fantasies: one new observation set per member (with a per-member noise= for the fixed-noise likelihoods)
+            fx = [points(rng, (), 2) + 0.0625 for _ in range(nm)]
+            fy = [rand(rng, 2) for _ in range(nm)]
+            fn = [0.05 + rand(rng, 2).abs() for _ in range(nm)]
+            if lik_kind == "gaussian":
+                form("fantasy", "IndependentModelList.get_fantasy_model(inputs, targets)",
+                     lambda: list(zip(ml.get_fantasy_model(fx, fy)(*tests),
+                                      [m.get_fantasy_model(a, b_)(xt) for m, a, b_, xt in zip(members, fx, fy, tests)])))
+            if lik_kind in ("fixed", "fixed+learned"):
+                form("fantasy:noise-kwarg", "IndependentModelList.get_fantasy_model(inputs, targets, noise=[..])",
+                     lambda: list(zip(ml.get_fantasy_model(fx, fy, noise=fn)(*tests),
+                                      [m.get_fantasy_model(a, b_, noise=nz)(xt) for m, a, b_, nz, xt in zip(members, fx, fy, fn, tests)])))
+
+
+# ------------------------------------------------------------------ batch-independent multi-output exact GP
+
+def check_multioutput(out, seed, reps):
+    """the main use of a batch shape: T independent outputs as an exact GP whose mean / kernel carry batch_shape [T]
+    (MultitaskMultivariateNormal.from_batch_mvn) with a diagonal MultitaskGaussianLikelihood.  Its MLL (with and without
+    hyperparameter priors) is the sum of the T single-output replicas' MLLs (each with the t-th parameter slice, noise =
+    global noise + task noise t), divided by the total number of observations."""
+    class MO(gpytorch.models.ExactGP):
+        def __init__(self, x, y, lik, mean, covar):
+            super().__init__(x, y, lik)
+            self.mean_module, self.covar_module = mean, covar
+
+        def forward(self, x):
+            return gpytorch.distributions.MultitaskMultivariateNormal.from_batch_mvn(
+                gpytorch.distributions.MultivariateNormal(self.mean_module(x), self.covar_module(x)))
+
+    def parts(bs, priors):
+        mean = gpytorch.means.ConstantMean(batch_shape=bs, constant_prior=P.NormalPrior(0.3, 1.2) if priors else None)
+        covar = K.ScaleKernel(K.RBFKernel(ard_num_dims=D, batch_shape=bs, lengthscale_prior=P.GammaPrior(3.0, 4.0) if priors else None),
+                              batch_shape=bs, outputscale_prior=P.GammaPrior(2.0, 1.5) if priors else None)
+        return mean, covar
+
+    for k in range(reps):
+        rng = random.Random(seed * 77 + k)
+        nt, n, priors = rng.choice([2, 3]), rng.choice([3, 4]), k % 2 == 1
+        x, y = points(rng, (), n), rand(rng, n, nt)
+        case = dict(kind="multioutput", tasks=nt, n=n, priors=priors, seed=seed, k=k)
+        out.case(case, True, label="multioutput-exact" + ("+priors" if priors else ""))
+        mean, covar = parts(torch.Size([nt]), priors)
+        lik = gpytorch.likelihoods.MultitaskGaussianLikelihood(num_tasks=nt, rank=0)
+        model = MO(x, y, lik, mean, covar)
+        fill_params(model, rng)
+        model.train()
+        key = "multioutput-exact:mll" + ("+priors" if priors else "")
+        with torch.no_grad():
+            try:
+                got = gpytorch.mlls.ExactMarginalLogLikelihood(lik, model)(model(x), y)
+            except Exception as e:
+                out.fail("impl-exception:%s:%s" % (key, type(e).__name__),
+                         "ExactMarginalLogLikelihood of a batch-independent multi-output exact GP raised %r" % e, case)
+                continue
+            total = 0.0
+            for t in range(nt):
+                rmean, rcovar = parts(torch.Size(), priors)
+                rlik = gpytorch.likelihoods.GaussianLikelihood()
+                rep = ListGP(x, y[:, t], rlik, rmean, rcovar)
+                for (name, pb), (_, pr) in zip(list(mean.named_parameters()) + list(covar.named_parameters()),
+                                               list(rmean.named_parameters()) + list(rcovar.named_parameters())):
+                    pr.data.copy_(pb.data[t])
+                rlik.noise = lik.noise.reshape(()) + lik.task_noises[t]
+                rep.train()
+                total = total + gpytorch.mlls.ExactMarginalLogLikelihood(rlik, rep)(rep(x), y[:, t]) * n
+            want = total / (n * nt)
+        if got.shape != want.shape or not C.close(got.item(), want.item(), 1e-9, 1e-9):
+            out.fail("replica:" + key, "MLL of the batch-independent multi-output exact GP is not the sum of its T single-output "
+                     "replicas' MLLs / (n T)", case, impl=got, model=want)
 
 
 # ------------------------------------------------------------------ main
@@ -585,7 +858,8 @@ def run(out, ctx):
                 out.case(dict(family=fam.name, sp=list(sp), sd=list(sd), round=r), len(m["triples"]) > 1,
                          label=fam.name.split(":")[0])
     out.extra["triples_compared"] = ntr
-    check_model_list(out, seed, 6 if tier == "quick" else 40)
+    check_model_list(out, seed, 16 if tier == "quick" else 80)
+    check_multioutput(out, seed, 6 if tier == "quick" else 24)
     out.tested_not_proved = [
         "that each gpytorch module implements the batched operation of the model (this is what the replica comparison tests)",
         "torch broadcasting/expand semantics (cross-checked against the Coq shape model on every pair)"]
@@ -597,6 +871,8 @@ def replay(path):
     out = C.Outcome("C08", "quick", 0)
     if case.get("kind") == "model-list":
         check_model_list(out, case["seed"], case["k"] + 1)
+    elif case.get("kind") == "multioutput":
+        check_multioutput(out, case["seed"], case["k"] + 1)
     elif "family" in case:
         sp, sd = tuple(case["sp"]), tuple(case["sd"])
         shapes = all_shapes()
